@@ -62,7 +62,8 @@ Fixpoint relations (n : xnode) (parent : option Z) : list xrel :=
    (for the last child: the null entry that ends the chain is where a reader must resume) *)
 Definition AT_sibling : Z := 0x01.
 Definition is_unit_ref (form : Z) : bool :=
-  (form =? 0x11) || (form =? 0x12) || (form =? 0x13) || (form =? 0x14) || (form =? 0x15).
+  (form =? 0x11) || (form =? 0x12) || (form =? 0x13) || (form =? 0x14) || (form =? 0x15) ||
+  (form =? 0x02).                           (* DW_FORM_ref (DWARF 1): 4-byte, relative to the unit *)
 Definition FORM_ref_addr : Z := 0x10.
 Definition FORM_ref_sig8 : Z := 0x20.
 
